@@ -99,6 +99,9 @@ pub enum Target {
     DottedStem(u16),
     /// a non UTF-8 file name
     NonUtf8(u16),
+    /// a name whose only dot is the leading one (`.hidden` file for odd numbers, `.cache` directory for even ones)
+    #[serde(alias = "LeadingDot")]
+    LeadingDot(u16),
 }
 
 #[derive(Debug, Clone, Serialize, Deserialize)]
@@ -374,6 +377,19 @@ impl C12 {
                     let _ = std::fs::write(&p, b"x");
                     (p, Some(false))
                 }
+                Target::LeadingDot(i) => {
+                    let d = &dirs[(*i as usize / 2) % dirs.len()];
+                    let dir = root.join(trees::rel_path(d, None));
+                    if i % 2 == 1 {
+                        let p = dir.join(".hidden");
+                        let _ = std::fs::write(&p, b"x");
+                        (p, Some(false))
+                    } else {
+                        let p = dir.join(".cache");
+                        let _ = std::fs::create_dir_all(&p);
+                        (p, Some(true))
+                    }
+                }
                 Target::NonUtf8(i) => {
                     use std::os::unix::ffi::OsStrExt;
                     let d = &dirs[*i as usize % dirs.len()];
@@ -382,7 +398,7 @@ impl C12 {
                     (p, Some(false))
                 }
             };
-            let inexpressible = matches!(p.target, Target::Outside | Target::DottedStem(_) | Target::NonUtf8(_));
+            let inexpressible = matches!(p.target, Target::Outside | Target::DottedStem(_) | Target::NonUtf8(_) | Target::LeadingDot(_));
             // the object is gone when its removal (or rename-from) is handled
             let mut is_dir = is_dir_now;
             let mut restore: Option<(PathBuf, Option<Vec<u8>>)> = None;
@@ -756,7 +772,7 @@ impl Prop for C12 {
     }
 
     fn rule(&self) -> String {
-        "synthetic part: a generated tree really exists in a temp dir under 1..2 roots (single, nested, disjoint); probes = (entry: any file or directory incl. the root itself, a path outside every root (elsewhere, or in a sibling directory whose name starts with the root's name), a dotted stem, a non UTF-8 name) x \
+        "synthetic part: a generated tree really exists in a temp dir under 1..2 roots (single, nested, disjoint); probes = (entry: any file or directory incl. the root itself, a path outside every root (elsewhere, or in a sibling directory whose name starts with the root's name), a dotted stem, a non UTF-8 name, a name whose only dot is the leading one) x \
          (notification kind: create file/folder/any, modify data/metadata/any, rename from/to/both, remove file/folder, any, access, other) x (path spelling: plain, with '.', with 'sibling/..'); removals are handled with the object already gone. \
          Each probe is fed to the crate's real notify handler (hook) and the events it sends are compared with: per root containing the path, the entry whose path_of is that path (right id, extension, kind; for a vanished extension-less path without hint either kind) \
          plus, for create/rename/remove, its parent directory (the root being Directory(\"\")); nothing for access/other/outside/inexpressible paths, and a later event is still delivered. Round trip id_of_path(path_of(e)) == e for every entry, path_of injective. \
@@ -792,6 +808,7 @@ impl Prop for C12 {
             1 => Just(Target::Outside),
             1 => any::<u16>().prop_map(Target::DottedStem),
             1 => any::<u16>().prop_map(Target::NonUtf8),
+            1 => any::<u16>().prop_map(Target::LeadingDot),
         ];
         let kind = (0..ALL_KINDS.len()).prop_map(|i| ALL_KINDS[i]);
         let spelling = prop_oneof![4 => Just(Spelling::Plain), 1 => Just(Spelling::CurDir), 1 => Just(Spelling::ParentDir)];
@@ -913,11 +930,12 @@ pub fn decode(u: &mut arbitrary::Unstructured) -> arbitrary::Result<Value> {
     };
     let mut probes = Vec::new();
     for _ in 0..u.int_in_range(1..=10)? {
-        let target = match u.int_in_range(0..=9)? {
+        let target = match u.int_in_range(0..=10)? {
             0..=3 => Target::File(u.arbitrary()?),
             4..=6 => Target::Dir(u.arbitrary()?),
             7 => Target::Outside,
             8 => Target::DottedStem(u.arbitrary()?),
+            10 => Target::LeadingDot(u.arbitrary()?),
             _ => Target::NonUtf8(u.arbitrary()?),
         };
         let kind = ALL_KINDS[u.int_in_range(0..=ALL_KINDS.len() - 1)?];
